@@ -176,10 +176,74 @@ fn gen_kpk(out: &mut dyn FnMut(Pos), _full: bool) {
     }
 }
 
+/// Middlegame and endgame positions with mating attacks (the FENs of the repository's own mate
+/// puzzles): their neighbourhoods contain mates in one next to captures, checks and promotions,
+/// and defenders who must pick the one move that does not allow mate.
+pub const TACTICAL_ROOTS: &[&str] = &[
+    "1k1r4/pp1q1B1p/3bQp2/2p2r2/P6P/2BnP3/1P6/5RKR b - - 0 1",
+    "1k2r3/pP3pp1/8/3P1B1p/5q2/N1P2b2/PP3Pp1/R5K1 b - - 0 1",
+    "1r6/pk6/4Q3/3P4/8/8/8/6K1 w - - 0 1",
+    "2r1nrk1/p4p1p/1p2p1pQ/nPqbRN2/8/P2B4/1BP2PPP/3R2K1 w - - 0 1",
+    "3r1r2/4k3/R7/3Q4/8/8/8/6K1 w - - 0 1",
+    "3rkr2/8/5Q2/8/8/8/8/6K1 w - - 0 1",
+    "4k3/5p2/8/6B1/8/8/8/3R2K1 w - - 0 1",
+    "5r2/pp3k2/5r2/q1p2Q2/3P4/6R1/PPP2PP1/1K6 w - - 0 1",
+    "6k1/1p1b3p/2pp2p1/p7/2Pb2Pq/1P1PpK2/P1N3RP/1RQ5 b - - 0 1",
+    "6k1/6P1/5K1R/8/8/8/8/8 w - - 0 1",
+    "8/7R/1pkp4/2p5/1PP5/8/8/6K1 w - - 0 1",
+    "8/8/1Q6/8/6pk/5q2/8/6K1 w - - 0 1",
+    "8/8/2P5/3K1k2/2R3p1/2q5/8/8 b - - 0 1",
+    "r1b1q1r1/ppp3kp/1bnp4/4p1B1/3PP3/2P2Q2/PP3PPP/RN3RK1 w - - 0 1",
+    "r1b3nr/ppp3qp/1bnpk3/4p1BQ/3PP3/2P5/PP3PPP/RN3RK1 w - - 0 11",
+    "r3k3/p1R2Qp1/2pq4/4p3/2P4P/3BP3/P4P1P/5bK1 b q - 0 1",
+    "rR6/5k2/2p3q1/4Qpb1/2PB1Pb1/4P3/r5R1/6K1 w - - 0 1",
+    "rn1r2k1/ppp2ppp/3q1n2/4b1B1/4P1b1/1BP1Q3/PP3PPP/RN2K1NR b KQ - 0 1",
+    "rn3rk1/p5pp/2p5/3Ppb2/2q5/1Q6/PPPB2PP/R3K1NR b KQ - 0 1",
+    // capture available next to a quiet mate; defender with one safe move; all-moves-lose positions
+    "4k3/5p2/7q/6B1/8/8/8/3R2K1 w - - 0 1",
+    "4r1k1/5ppp/8/7r/1n6/8/R4PPP/3Q2K1 w - - 0 1",
+    "6k1/5ppp/8/8/8/8/5PPP/3RR1K1 w - - 0 1",
+    "r5k1/5ppp/8/8/8/8/1q3PPP/R5K1 w - - 0 1",
+];
+
+/// Lone king (to move) against king + two queens: every move loses, some lose to a mate in one.
+fn gen_kqq_defence(out: &mut dyn FnMut(Pos), full: bool) {
+    let attackers: Vec<u8> = if full { vec![63, 60, 32, 36] } else { vec![63] };
+    for ak in attackers {
+        for lk in TRIANGLE {
+            for x in 0..64u8 {
+                for y in (x + 1)..64u8 {
+                    if let Some(p) = place(&[(Side::W, Kind::K, lk), (Side::B, Kind::K, ak), (Side::B, Kind::Q, x), (Side::B, Kind::Q, y)], Side::W) {
+                        out(p.mirror());
+                        out(p);
+                    }
+                }
+            }
+        }
+    }
+}
+
+/// Lone king (to move) against king + queen + rook.
+fn gen_kqr_defence(out: &mut dyn FnMut(Pos), full: bool) {
+    let attackers: Vec<u8> = if full { vec![63, 60, 32, 36] } else { vec![63] };
+    for ak in attackers {
+        for lk in TRIANGLE {
+            for x in 0..64u8 {
+                for y in 0..64u8 {
+                    if let Some(p) = place(&[(Side::W, Kind::K, lk), (Side::B, Kind::K, ak), (Side::B, Kind::Q, x), (Side::B, Kind::R, y)], Side::W) {
+                        out(p);
+                    }
+                }
+            }
+        }
+    }
+}
+
 const SPACES_QUICK: &[Space] = &[
     Space { name: "K+Q v k", description: "every valid placement with the lone king in the a1-d1-d4 triangle, both sides to move, both colours", gen: gen_kqk },
     Space { name: "K+R v k", description: "every valid placement with the lone king in the a1-d1-d4 triangle, both sides to move, both colours", gen: gen_krk },
     Space { name: "K+P v k", description: "pawn on its 6th or 7th rank, kings anywhere, both sides to move, both colours", gen: gen_kpk },
+    Space { name: "K v k+q+q (lone king to move)", description: "lone king in the a1-d1-d4 triangle, attacking king on h8, two queens anywhere, both colours: every move loses, the defensive half decides", gen: gen_kqq_defence },
 ];
 
 const SPACES_THOROUGH: &[Space] = &[
@@ -188,6 +252,8 @@ const SPACES_THOROUGH: &[Space] = &[
     Space { name: "K+P v k", description: "pawn on its 6th or 7th rank, kings anywhere, both sides to move, both colours", gen: gen_kpk },
     Space { name: "K+R+R v k", description: "every valid placement with the lone king in the a1-d1-d4 triangle, both sides to move", gen: gen_krrk },
     Space { name: "K+Q v k+r", description: "every valid placement with the black king in the a1-d1-d4 triangle, both sides to move", gen: gen_kqkr },
+    Space { name: "K v k+q+q (lone king to move)", description: "lone king in the a1-d1-d4 triangle, attacking king on h8, e8, a5 or e5, two queens anywhere, both colours", gen: gen_kqq_defence },
+    Space { name: "K v k+q+r (lone king to move)", description: "lone king in the a1-d1-d4 triangle, attacking king on h8, e8, a5 or e5, queen and rook anywhere", gen: gen_kqr_defence },
 ];
 
 struct Tot {
@@ -197,12 +263,12 @@ struct Tot {
     searches: AtomicU64,
 }
 
-fn run_cases(rep: &Report, cases: &[Case], tot: &Tot, samples: &mut Vec<J>) {
+fn run_cases(rep: &Report, cases: &[Case], tot: &Tot, samples: &mut Vec<J>, max_attack_depth: u8) {
     // one job per (case, depth, kind)
     let mut jobs: Vec<(usize, u8, bool)> = Vec::new();
     for (i, c) in cases.iter().enumerate() {
         if c.attack_case() {
-            for d in 1..=4u8 {
+            for d in 1..=max_attack_depth {
                 jobs.push((i, d, true));
             }
         }
@@ -295,9 +361,56 @@ pub fn run(tier: &str, seed: u64, out: &str) {
         tot.states.fetch_add(states.len() as u64, Ordering::Relaxed);
         tot.attack.fetch_add(a as u64, Ordering::Relaxed);
         tot.defence.fetch_add(d as u64, Ordering::Relaxed);
-        run_cases(&rep, &cases, &tot, &mut samples);
+        run_cases(&rep, &cases, &tot, &mut samples, 4);
         eprintln!("[C08] root neighbourhood depth {}: {} states, {} with a mate in one, {} with mixed safe/unsafe moves ({:.1}s)", depth, states.len(), a, d, rep.elapsed());
         parts.push(J::obj().set("space", format!("every state within {} plies of the {} special roots", depth, roots.len())).set("states", states.len()).set("with_mate_in_one", a).set("with_mixed_moves", d));
+    }
+
+    // ---- neighbourhoods of the tactical roots
+    if !rep.saturated() {
+        let depth = if thorough { 2 } else { 1 };
+        let mut seen = std::collections::HashSet::new();
+        let mut states: Vec<Pos> = Vec::new();
+        let mut frontier: Vec<Pos> = Vec::new();
+        for f in TACTICAL_ROOTS {
+            let p = Pos::from_fen(f).unwrap();
+            if let Err(e) = p.validity() {
+                eprintln!("MACHINERY ERROR: C08 tactical root {:?}: {}", f, e);
+                std::process::exit(2);
+            }
+            frontier.push(p.mirror());
+            frontier.push(p);
+        }
+        for layer in 0..=depth {
+            let mut next = Vec::new();
+            for p in frontier {
+                if seen.insert(p.fen4()) {
+                    if layer < depth {
+                        for m in p.legal_moves() {
+                            next.push(p.make(m));
+                        }
+                    }
+                    states.push(p);
+                }
+            }
+            frontier = next;
+        }
+        let cases: Vec<Case> = par_map(&states, analyse).into_iter().filter(|c| c.attack_case() || c.defence_case()).collect();
+        let a = cases.iter().filter(|c| c.attack_case()).count();
+        let d = cases.iter().filter(|c| c.defence_case()).count();
+        tot.states.fetch_add(states.len() as u64, Ordering::Relaxed);
+        tot.attack.fetch_add(a as u64, Ordering::Relaxed);
+        tot.defence.fetch_add(d as u64, Ordering::Relaxed);
+        run_cases(&rep, &cases, &tot, &mut samples, if thorough { 4 } else { 3 });
+        eprintln!("[C08] tactical neighbourhood depth {}: {} states, {} with a mate in one, {} with mixed safe/unsafe moves ({:.1}s)", depth, states.len(), a, d, rep.elapsed());
+        parts.push(
+            J::obj()
+                .set("space", format!("every state within {} plies of {} tactical roots (with colour mirrors)", depth, TACTICAL_ROOTS.len()))
+                .set("states", states.len())
+                .set("with_mate_in_one", a)
+                .set("with_mixed_moves", d)
+                .set("attack_depths", if thorough { "1..4" } else { "1..3" }),
+        );
     }
 
     for sp in if thorough { SPACES_THOROUGH } else { SPACES_QUICK } {
@@ -318,7 +431,7 @@ pub fn run(tier: &str, seed: u64, out: &str) {
         tot.states.fetch_add(states.len() as u64, Ordering::Relaxed);
         tot.attack.fetch_add(a as u64, Ordering::Relaxed);
         tot.defence.fetch_add(d as u64, Ordering::Relaxed);
-        run_cases(&rep, &cases, &tot, &mut samples);
+        run_cases(&rep, &cases, &tot, &mut samples, 4);
         eprintln!("[C08] {}: {} states, {} with a mate in one, {} with mixed safe/unsafe moves ({:.1}s)", sp.name, states.len(), a, d, rep.elapsed());
         parts.push(J::obj().set("space", sp.name).set("description", sp.description).set("states", states.len()).set("with_mate_in_one", a).set("with_mixed_moves", d));
     }
